@@ -35,12 +35,14 @@ func (p par) text() string {
 }
 
 type op struct {
-	Name string
-	P    []par
-	G    string
-	W    int
-	Sgr  []string // Coq constructors
-	SgrB string   // parameter text
+	Name         string
+	P            []par
+	G            string
+	W            int
+	Sgr          []string // Coq constructors
+	SgrB         string   // parameter text
+	LinkP, LinkU string   // OSC 8 params and URI
+	End          string   // OSC terminator
 }
 
 var final1 = map[string]string{"CUU": "A", "CUD": "B", "CUF": "C", "CUB": "D", "CNL": "E", "CPL": "F", "CHA": "G",
@@ -74,6 +76,13 @@ func (o op) bytes() string {
 	if o.Name == "SGR" {
 		return "\x1b[" + o.SgrB + "m"
 	}
+	if o.Name == "Link" {
+		end := o.End
+		if end == "" {
+			end = "\x1b\\"
+		}
+		return "\x1b]8;" + o.LinkP + ";" + o.LinkU + end
+	}
 	panic("op " + o.Name)
 }
 
@@ -83,6 +92,8 @@ func (o op) coq() string {
 		return "Print " + hx.Runes(o.G) + " " + fmt.Sprint(o.W)
 	case o.Name == "SGR":
 		return "SGR " + hx.List(o.Sgr)
+	case o.Name == "Link":
+		return "Link " + hx.Runes(o.LinkP) + " " + hx.Runes(o.LinkU)
 	case len(o.P) == 1:
 		return o.Name + " " + o.P[0].coq()
 	case len(o.P) == 2:
@@ -176,6 +187,18 @@ func (g *gen) sgr() op {
 	return op{Name: "SGR", Sgr: cs, SgrB: strings.Join(ps, ";")}
 }
 
+// link: OSC 8 ; params ; URI with params and URI over an alphabet that contains the field
+// separator ';' (URI only), the parameter separators ':' and '=' and other URI punctuation;
+// an empty URI closes the link
+func (g *gen) link() op {
+	tg := &termhx.Gen{R: g.r}
+	o := op{Name: "Link", End: []string{"\a", "\x1b\\"}[g.r.Intn(2)]}
+	if g.r.Intn(4) != 0 {
+		o.LinkP, o.LinkU = tg.Link()
+	}
+	return o
+}
+
 func (g *gen) one(name string) op {
 	size := g.w
 	switch name {
@@ -218,10 +241,12 @@ func (g *gen) op() op {
 		return g.one([]string{"IL", "DL"}[g.r.Intn(2)])
 	case k < 89:
 		return g.one([]string{"SU", "SD"}[g.r.Intn(2)])
-	case k < 92:
+	case k < 91:
 		return op{Name: []string{"DECSC", "DECRC"}[g.r.Intn(2)]}
-	case k < 95:
+	case k < 93:
 		return op{Name: []string{"AltOn", "AltOff"}[g.r.Intn(2)]}
+	case k < 96:
+		return g.link()
 	default:
 		return g.sgr()
 	}
@@ -316,6 +341,11 @@ func main() {
 			}
 		}
 		v = append(v, op{Name: "SGR"}, op{Name: "SGR", Sgr: []string{"SReverse"}, SgrB: "7"}, op{Name: "SGR", Sgr: []string{"SBgIdx 200"}, SgrB: "48;5;200"})
+		// hyperlinks: plain, closing, and targets containing ';' ':' '=' (with and without params)
+		for _, l := range [][2]string{{"", "http://a"}, {"", ""}, {"id=1", "http://a/b;c"}, {"", "x;y;z"}, {"id=a:k=v", "m:a@b?s=x;y=z"},
+			{"", ";"}, {"id=x=y", "u"}, {"", "data:text/plain;charset=utf-8;base64,aGk="}} {
+			v = append(v, op{Name: "Link", LinkP: l[0], LinkU: l[1]})
+		}
 		return v
 	}
 
@@ -386,7 +416,7 @@ func main() {
 		}
 		runCase(g.w, g.h, skip, ops, "random", fmt.Sprintf("len-%d0s", len(ops)/10))
 	}
-	cfg.Write("C06", "operation sequences over the vocabulary of VtSpec.v (printable narrow and wide text, CR, LF, IND, RI, NEL, CUU..CUP/HVP, ED, EL, ECH, ICH, DCH, IL, DL, SU, SD, DECSTBM, DECSC, DECRC, alternate screen, SGR) with parameters omitted, 0, 1, 2, size-1, size, size+1 and huge, on screens from 2x2: (a) every operation shape once after a preamble that fills the screen with distinct glyphs (plain and styled) and places the cursor in a corner, the middle or an edge, followed by one more glyph; thorough: also pairs of shapes inside a scrolling region; (b) random histories of 6-45 operations; written as bytes, parsed by the real ansi.Parser; the complete emulator state is observed after every operation; non-trivial = at least three different operations in the history",
+	cfg.Write("C06", "operation sequences over the vocabulary of VtSpec.v (printable narrow and wide text, CR, LF, IND, RI, NEL, CUU..CUP/HVP, ED, EL, ECH, ICH, DCH, IL, DL, SU, SD, DECSTBM, DECSC, DECRC, alternate screen, SGR, OSC 8 hyperlinks with targets and parameters over an alphabet containing \";\", \":\", \"=\") with parameters omitted, 0, 1, 2, size-1, size, size+1 and huge, on screens from 2x2: (a) every operation shape once after a preamble that fills the screen with distinct glyphs (plain and styled) and places the cursor in a corner, the middle or an edge, followed by one more glyph; thorough: also pairs of shapes inside a scrolling region; (b) random histories of 6-45 operations; written as bytes, parsed by the real ansi.Parser; the complete emulator state is observed after every operation; non-trivial = at least three different operations in the history",
 		[]*hx.Stream{s}, map[string]interface{}{"reparsed_after_escape_timer": reparsed}, nil)
 }
 
